@@ -1,7 +1,8 @@
 /- model driver for C01: one operation per input line, one canonical line out -/
 import Batchie.Model.DriverLoop
 import Batchie.Model.ScreenIO
+import Batchie.Model.ScreenIOC01
 
 open Batchie
 
-def main : IO Unit := DriverLoop.run [ScreenIO.handle]
+def main : IO Unit := DriverLoop.run [ScreenIO.handle, ScreenIOC01.handle]
